@@ -25,7 +25,10 @@ class Recorder:
             self.byname.setdefault(s.name, s)
         return (tuple(s.name for s in reac.reactants), tuple(s.name for s in reac.products),
                 round(reac.temp_min * 10), round(reac.temp_max * 10), int(reac.reaction_type),
-                reac.idxfromfile if idx is None else idx)
+                reac.idxfromfile if idx is None else idx,
+                # the NAME of the type as the "short" format prints it: each reader class has its own enumeration, so two
+                # reactions of one type value may print different names (KIDA_MA / UMIST_NN / GAS_TWOBODY)
+                getattr(reac.reaction_type, "name", str(int(reac.reaction_type))))
 
     def slot(self, net):
         k = id(net)
@@ -263,12 +266,14 @@ def to_traces(rec: Recorder, tid0: int = 1, meta: dict | None = None, merge: boo
         rank = {nm: i + 1 for i, nm in enumerate(sorted(names))}
         rid: dict = {}
         R: list[dict] = []
+        tnid: dict = {}
 
         def rix(key):
             if key not in rid:
                 R.append({"r": [cls(s) for s in key[0]], "p": [cls(s) for s in key[1]],
                           "rn": [rank[nm] for nm in key[0]], "pn": [rank[nm] for nm in key[1]],
                           "tmin": key[2], "tmax": key[3], "ty": key[4], "idx": key[5],
+                          "tn": tnid.setdefault(key[6] if len(key) > 6 else str(key[4]), len(tnid) + 1),
                           "text": " + ".join(key[0]) + " -> " + " + ".join(key[1])})
                 rid[key] = len(R)
             return rid[key]
